@@ -834,3 +834,219 @@ Proof.
 Qed.
 
 End P4.
+
+(** ---- final statements ---- *)
+Section Final.
+Variable dw : bytes -> N.
+
+Definition widths_ok (c : hcmd) : Prop :=
+  (forall a, In a (hc_args c) -> arg_widths_ok dw a) /\ sub_widths_ok dw c.
+
+Lemma cmd_ok_intro c : args_ok c -> widths_ok c -> cmd_ok dw c.
+Proof. intros Ha [Hw Hs]. split; [|exact Hs]. intros a Hin. split; [apply Ha|apply Hw]; exact Hin. Qed.
+
+(** boolean form of the hypotheses (to discharge them by computation) *)
+Definition arg_widths_okb (a : harg) : bool :=
+  (contrib dw a + 12 <=? FMT_WIDTH_MAX) && forallb (fun p => dw (pv_name p) <=? FMT_WIDTH_MAX) (ha_pvs a).
+Definition cmd_okb (c : hcmd) : bool :=
+  forallb (fun a => arg_ok a && arg_widths_okb a) (hc_args c)
+  && forallb (fun sc => dw (sc_str sc) + 12 <=? FMT_WIDTH_MAX) (hc_subs c).
+Lemma cmd_okb_sound c : cmd_okb c = true -> cmd_ok dw c.
+Proof.
+  unfold cmd_okb. intros H. apply andb_true_iff in H. destruct H as [Ha Hs].
+  rewrite forallb_forall in Ha, Hs. split.
+  - intros a Hin. specialize (Ha a Hin). apply andb_true_iff in Ha. destruct Ha as [H1 H2]. split; [exact H1|].
+    unfold arg_widths_okb in H2. apply andb_true_iff in H2. destruct H2 as [H2 H3]. split.
+    + apply N.leb_le. exact H2.
+    + intros p Hp. rewrite forallb_forall in H3. apply N.leb_le. apply H3. exact Hp.
+  - intros sc Hin. apply N.leb_le. apply Hs. exact Hin.
+Qed.
+
+(** C12_padding_safe: on a built command no subtraction underflows, no [expect] fails and no format
+    width exceeds the [u16] limit -- for every width, both modes, every display-width function *)
+Theorem padding_safe c use_long w : cmd_ok dw c -> write_help dw c use_long w <> None.
+Proof. intros H. destruct (write_help_spec dw c use_long w H) as [s [E _]]. rewrite E. discriminate. Qed.
+
+Theorem render_total c use_long w :
+  hc_built c = false -> spec_ok c -> widths_ok (h_build_self c) ->
+  render_help dw c use_long w <> None /\ render_usage c <> None.
+Proof.
+  intros Hb Hs Hw. pose proof (h_build_self_args_ok c Hb Hs) as Ha. split.
+  - unfold render_help. apply padding_safe. apply cmd_ok_intro; assumption.
+  - unfold render_usage. destruct (usage_pieces_some _ Ha) as [u E]. rewrite E. discriminate.
+Qed.
+
+(** C12_padding_bounded: the padding of a row never exceeds a bound that does not mention the width *)
+Definition width_bound (c : hcmd) : N :=
+  fold_left (fun m x => N.max m x) (map (contrib dw) (hc_args c) ++ map (fun sc => dw (sc_str sc)) (hc_subs c)) 2.
+
+Theorem padding_bounded c use_long w s sec r :
+  cmd_ok dw c -> write_help dw c use_long w = Some s -> In sec (scr_sections s) -> In r (s_rows sec) ->
+  r_pad r <= width_bound c + 6.
+Proof.
+  intros Hc E Hsec Hr. destruct (write_help_spec dw c use_long w Hc) as [s' [E' [Hok _]]].
+  rewrite E in E'. inversion E'; subst s'.
+  destruct (fold_max_spec (fun x : N => x) (map (contrib dw) (hc_args c) ++ map (fun sc => dw (sc_str sc)) (hc_subs c)) 2)
+    as [H2 [Hall _]]. fold (width_bound c) in H2, Hall.
+  destruct (Hok sec r Hsec Hr) as [[a [_ [_ [_ [[b [Hb Hp]] _]]]]]|[sc [_ [_ [_ [[b [Hb Hp]] _]]]]]].
+  - destruct Hb as [Hb|[a' [Ha' Hb]]]; [subst; lia|].
+    assert (b <= width_bound c); [|lia]. subst b. apply Hall. apply in_or_app. left. apply in_map. exact Ha'.
+  - destruct Hb as [Hb|[s' [Hs' Hb]]]; [subst; lia|].
+    assert (b <= width_bound c); [|lia]. subst b. apply Hall. apply in_or_app. right.
+    apply (in_map (fun sc => dw (sc_str sc))). exact Hs'.
+Qed.
+
+(** C12_lists_visible *)
+Theorem lists_visible_args c use_long w s a :
+  NoDup (map ha_id (hc_args c)) -> write_help dw c use_long w = Some s ->
+  In a (hc_args c) -> should_show_arg use_long a = true ->
+  exists sec r, In sec (scr_sections s) /\ s_title sec = arg_section_title a /\ In r (s_rows sec) /\ r_id r = ha_id a.
+Proof.
+  intros Hnd E Ha Hs. unfold write_help in E.
+  destruct (usage_pieces c); [|discriminate].
+  destruct (write_all_args dw _ c) as [secs|] eqn:Es; [|discriminate].
+  inversion E; subst s. cbn [scr_sections].
+  apply (lists_visible_arg dw _ c secs a Hnd Es Ha Hs).
+Qed.
+
+Theorem lists_visible_subs c use_long w s sc :
+  NoDup (map sc_str (hc_subs c)) -> write_help dw c use_long w = Some s ->
+  In sc (hc_subs c) -> hc_hide sc = false -> hc_name sc <> s_help ->
+  exists sec r, In sec (scr_sections s) /\ s_title sec = s_commands /\ In r (s_rows sec) /\ r_id r = hc_name sc.
+Proof.
+  intros Hnd E Hsc Hh Hn. unfold write_help in E.
+  destruct (usage_pieces c); [|discriminate].
+  destruct (write_all_args dw _ c) as [secs|] eqn:Es; [|discriminate].
+  inversion E; subst s. cbn [scr_sections].
+  apply (lists_visible_sub dw _ c secs sc Hnd Es Hsc Hh Hn).
+Qed.
+
+(** C12_hides_hidden: every row comes from an argument that is shown in this mode (listing only
+    possible values that are not hidden) or from a subcommand that is not hidden *)
+Theorem hides_hidden_rows c use_long w s sec r :
+  cmd_ok dw c -> write_help dw c use_long w = Some s -> In sec (scr_sections s) -> In r (s_rows sec) ->
+  (exists a, In a (hc_args c) /\ should_show_arg use_long a = true /\ r_id r = ha_id a
+             /\ forall p, In p (r_pvs r) -> exists pv, In pv (ha_pvs a) /\ pv_hide pv = false /\ pv_name pv = p)
+  \/ (exists sc, In sc (hc_subs c) /\ hc_hide sc = false /\ r_id r = hc_name sc /\ r_pvs r = []).
+Proof.
+  intros Hc E Hsec Hr. destruct (write_help_spec dw c use_long w Hc) as [s' [E' [Hok _]]].
+  rewrite E in E'. inversion E'; subst s'.
+  destruct (Hok sec r Hsec Hr) as [[a [H1 [H2 [H3 [_ H5]]]]]|[sc [H1 [H2 [H3 [_ H5]]]]]].
+  - left. exists a. auto.
+  - right. exists sc. auto.
+Qed.
+
+End Final.
+
+(** a hidden argument is shown in no mode; one hidden from a mode is not shown in that mode *)
+Lemma hidden_not_shown use_long a :
+  (ha_hide a = true \/ (use_long = true /\ ha_hide_long a = true) \/ (use_long = false /\ ha_hide_short a = true)) ->
+  should_show_arg use_long a = false.
+Proof.
+  unfold should_show_arg. intros [H|[[H1 H2]|[H1 H2]]].
+  - rewrite H. reflexivity.
+  - subst. rewrite H2. destruct (ha_hide a); [reflexivity|]. cbn. rewrite andb_false_r. reflexivity.
+  - subst. rewrite H2. destruct (ha_hide a); [reflexivity|]. cbn. rewrite andb_false_r. reflexivity.
+Qed.
+
+(** every usage piece comes from a required argument or a positional that is not hidden;
+    with distinct ids an optional hidden argument therefore contributes none *)
+Theorem usage_hides_hidden c items a :
+  NoDup (map ha_id (hc_args c)) -> args_ok c -> usage_arg_items c = Some items ->
+  In a (hc_args c) -> ha_hide a = true -> ha_required a = false -> ~ In (ha_id a) (map fst items).
+Proof.
+  intros Hnd Hok E Ha Hh Hr Hin.
+  destruct (usage_arg_items_spec c Hok) as [items' [E' Hsrc]]. rewrite E in E'. inversion E'; subst items'.
+  apply in_map_iff in Hin. destruct Hin as [x [Ex Hx]].
+  destruct (Hsrc x Hx) as [b [Hb [Eid Hcase]]].
+  assert (b = a).
+  { clear - Hnd Ha Hb Eid Ex. rewrite Ex in Eid. induction (hc_args c) as [|y t IH]; [destruct Ha|].
+    cbn [map] in Hnd. inversion Hnd as [|? ? Hy Ht]; subst.
+    destruct Ha as [Ha|Ha], Hb as [Hb|Hb].
+    - congruence.
+    - subst y. exfalso. apply Hy. rewrite <- Eid. apply in_map. exact Hb.
+    - subst y. exfalso. apply Hy. rewrite Eid. apply in_map. exact Ha.
+    - apply IH; assumption. }
+  subst b. destruct Hcase as [Hc|[_ Hc]]; congruence.
+Qed.
+
+(** C12_help_level: the help error of a path renders the level the path leads to *)
+Theorem help_level dw root path use_long w s :
+  help_at dw root path use_long w = Some (Some s) ->
+  exists lv, level_walk (h_build_self (root <| hc_bin_name := Some (opt_default (hc_name root) (hc_bin_name root)) |>)) path
+             = Some (Some lv)
+             /\ write_help dw lv (use_long && hc_long_help_exists lv) w = Some s
+             /\ scr_about s = write_about (use_long && hc_long_help_exists lv) lv.
+Proof.
+  unfold help_at. intros H.
+  destruct (level_walk _ path) as [[lv|]|] eqn:E; try discriminate.
+  unfold write_help_err in H. destruct (write_help dw lv _ w) as [s'|] eqn:E2; [|discriminate].
+  inversion H; subst s'. exists lv. split; [reflexivity|]. split; [exact E2|].
+  unfold write_help in E2. destruct (usage_pieces lv); [|discriminate]. destruct (write_all_args dw _ lv); [|discriminate].
+  inversion E2. reflexivity.
+Qed.
+
+(** [level_walk] descends by exact subcommand names, one [_build_subcommand] per name *)
+Lemma level_walk_step c n rest :
+  level_walk c (n :: rest) =
+  match h_build_subcommand c n with
+  | Some (Some sc) => level_walk sc rest
+  | Some None => Some None
+  | None => None
+  end.
+Proof. reflexivity. Qed.
+
+(** ---- the defects of the unchanged tree (before bad6087 / 8ecd1df / 5d02723), as witnesses ---- *)
+Definition flag_v_count : harg := harg_build ((harg_new [118] ACount) <| ha_short := Some 118 |>).
+Lemma padding_unsafe_before_fix :
+  exists a L, arg_ok a = true /\ wa_longest_orig len [a] 2 = Some L
+              /\ align_to_about len (mkCtx false 80 false) a false L = None.
+Proof. exists flag_v_count, 2. vm_compute. repeat split. Qed.
+Lemma padding_safe_after_fix :
+  exists L, wa_longest len [flag_v_count] 2 = Some L
+            /\ align_to_about len (mkCtx false 80 false) flag_v_count false L = Some 2.
+Proof. exists 5. vm_compute. split; reflexivity. Qed.
+
+Definition flag_a : harg := harg_build ((harg_new [97] ASetTrue) <| ha_short := Some 97 |> <| ha_disp_ord := Some 0 |>).
+Definition flag_a0 : harg := harg_build ((harg_new [98] ASetTrue) <| ha_long := Some [97; 48] |> <| ha_disp_ord := Some 0 |>).
+Lemma sort_key_collision_before_fix :
+  option_sort_key flag_a = option_sort_key flag_a0
+  /\ map (fun p => ha_id (snd p)) (wa_ord_orig option_sort_key [flag_a; flag_a0]) = [[98]]
+  /\ map (fun p => ha_id (snd p)) (wa_ord option_sort_key [flag_a; flag_a0]) = [[97]; [98]].
+Proof. vm_compute. repeat split. Qed.
+
+Definition hidden_next_line : harg :=
+  (harg_new [120] ASetTrue) <| ha_long := Some [120] |> <| ha_hide_short := true |> <| ha_next_line := true |>.
+Lemma next_line_override_before_fix :
+  should_show_arg_orig false hidden_next_line = true /\ should_show_arg false hidden_next_line = false.
+Proof. vm_compute. split; reflexivity. Qed.
+
+(** ---- non-vacuity: a command that satisfies every hypothesis used above ---- *)
+Definition ex_cmd : hcmd :=
+  cmd_with ((hcmd_new [112]) <| hc_about := Some [97; 98] |> <| hc_version := true |>)
+    [ (harg_new [111] ASet) <| ha_short := Some 111 |> <| ha_long := Some [111; 112; 116] |>
+        <| ha_help := Some [104] |>
+        <| ha_pvs := [mkPv [97] (Some [104]) false; mkPv [98] None true] |>;
+      (harg_new [118] ACount) <| ha_short := Some 118 |> <| ha_heading := Some [72] |>;
+      (harg_new [104; 105] ASetTrue) <| ha_long := Some [104; 105] |> <| ha_hide := true |>;
+      (harg_new [102] ASet) <| ha_required := true |> ]
+    [ (hcmd_new [115]) <| hc_about := Some [115; 97] |>;
+      (hcmd_new [116]) <| hc_hide := true |> ].
+
+Example ex_cmd_hyps :
+  hc_built ex_cmd = false /\ spec_ok ex_cmd /\ cmd_ok len (h_build_self ex_cmd)
+  /\ NoDup (map ha_id (hc_args (h_build_self ex_cmd))) /\ NoDup (map sc_str (hc_subs (h_build_self ex_cmd))).
+Proof.
+  split; [reflexivity|]. split.
+  { intros a Ha. vm_compute in Ha. repeat (destruct Ha as [Ha|Ha]; [subst a; reflexivity|]). destruct Ha. }
+  split; [apply cmd_okb_sound; vm_compute; reflexivity|].
+  split; vm_compute; repeat constructor; cbn; intuition discriminate.
+Qed.
+
+Example ex_cmd_renders :
+  match render_help len ex_cmd false 80 with
+  | Some s => map (fun sec => (s_title sec, map r_id (s_rows sec))) (scr_sections s)
+  | None => []
+  end
+  = [ (s_commands, [[115]; s_help]); (s_arguments, [[102]]); (s_options, [[111]; s_help; s_version]); ([72], [[118]]) ].
+Proof. vm_compute. reflexivity. Qed.
